@@ -1,4 +1,5 @@
 import BigtoolsModel.Tiler2
+import BigtoolsModel.ZoomLevels
 import BigtoolsModel.Tiler3
 import BigtoolsModel.ZoomQueryBytes
 /-! # C07 — bigWig zoom levels are faithful reductions of the data
@@ -62,3 +63,23 @@ theorem C07_zoom_range_query (b : Nat) (hb : 2 ≤ b) (hb16 : b < 256 ^ 2) (ds :
   zoom_query_bytes b hb hb16 ds hne hsorted hok l hl hsecs Ls hLs idx hidx c qs qe
 
 end BBI
+
+namespace ZL
+
+/-- Manual zoom lists (any list: unsorted, duplicates, zeros, more than ten): the resolutions used are strictly
+    increasing, non-zero, at most ten and taken from the list; with at most ten distinct non-zero sizes all are used. -/
+theorem C07_manual_zoom_levels (l : List Nat) :
+    StrictInc (normalize l) ∧ (∀ z ∈ normalize l, z ≠ 0 ∧ z ∈ l) ∧ (normalize l).length ≤ 10 ∧
+    (((l.filter (· ≠ 0)).foldr insertUniq []).length ≤ 10 → ∀ z ∈ l, z ≠ 0 → z ∈ normalize l) :=
+  normalize_spec l
+
+/-- Automatic candidates `initial · 4^k` are strictly increasing, and the listed levels — any subsequence of the
+    candidates — are too. -/
+theorem C07_auto_candidates_strictly_increasing (initial : Nat) (hi : 0 < initial) (n : Nat) : StrictInc (autoSizes initial n) :=
+  autoSizes_strict initial hi n
+
+theorem C07_listed_levels_strictly_increasing (cands kept : List Nat) (hc : StrictInc cands) (hk : kept.Sublist cands) :
+    StrictInc kept :=
+  listed_levels_strictly_increasing cands kept hc hk
+
+end ZL
